@@ -186,6 +186,9 @@ class PopulationBalanceModel:
         '''
         Loads recorded PSD
         '''
+        #saveRecordedPSD (np.savez) adds the extension to the file name if it is missing
+        if not filename.endswith('.npz'):
+            filename += '.npz'
         data = np.load(filename)
         self._record = True
         self._recordedTime = data['time']
